@@ -134,6 +134,16 @@ def gen(rng, tier):
             yield _ws_case(rng, n, proto, msgs, sub)
 
 
+PROBE_APP = [["recv_until_end"], ["respond", 200, [(b"x-probe", b"1")], b"probe"]]
+
+
+def _probe(fb):
+    """A later request on the same HTTP/2 connection: whatever the application did to its own stream, the connection's shared
+    state (HPACK, flow control) must still let an independent client decode the next response."""
+    return [["feed", fb.headers(3, [(b":method", b"GET"), (b":scheme", b"http"), (b":path", b"/probe"), (b":authority", b"h")], end_stream=True)],
+            ["settle"]]
+
+
 def _http_case(rng, n, proto, msgs, sub):
     te = rng.random() < 0.5
     script = _script([m for _, m in msgs])
@@ -149,7 +159,8 @@ def _http_case(rng, n, proto, msgs, sub):
         hd.append((b"te", b"trailers"))
     blob = client_preface(fb, {}) + fb.headers(1, hd, end_stream=True)
     return {"family": "http.h2", "backends": ["asyncio", "trio"], "config": {"keep_alive_timeout": 5000}, "conn": {},
-            "apps": {"default": script}, "client": [["feed", blob], ["settle"]], "reactor": {"kind": "h2", "credit": "auto"},
+            "apps": {"default": script, "by_path": {"/probe": PROBE_APP}}, "client": [["feed", blob], ["settle"]] + _probe(fb),
+            "reactor": {"kind": "h2", "credit": "auto"},
             "truth": truth, "sched": {"seed": rng.randrange(1 << 30)}, "horizon": 20.0}
 
 
@@ -166,7 +177,8 @@ def _ws_case(rng, n, proto, msgs, sub):
             (b":authority", b"h"), (b"sec-websocket-version", b"13")]
     blob = client_preface(fb, {}) + fb.headers(1, hdrs, end_stream=False)
     return {"family": "ws.h2", "backends": ["asyncio", "trio"], "config": {"keep_alive_timeout": 5000}, "conn": {},
-            "apps": {"default": script, "websocket": script}, "client": [["feed", blob], ["settle"]],
+            "apps": {"default": script, "websocket": script, "by_path": {"/probe": PROBE_APP}},
+            "client": [["feed", blob], ["settle"]] + _probe(fb),
             "reactor": {"kind": "h2", "credit": "auto"}, "truth": truth,
             "sched": {"seed": rng.randrange(1 << 30)}, "horizon": 20.0}
 
@@ -435,6 +447,13 @@ def check(case, obs, tally):
                 heads.extend(h or [])
         for p in rx.pushes:
             heads.extend(p.get("headers") or [])
+        if obs.closed_at is None and not rx.errors() and rx.goaway is None:
+            tally.clause("connection-intact")
+            pr = rx.streams.get(3)
+            if pr is None or pr.status != 200 or bytes(pr.data) != b"probe" or pr.ended != 1:
+                out.append({"clause": "wire-prefix", "sig": "C12.wire/h2/connection-poisoned",
+                            "detail": "after the sequence %r (%s) a later request on the same connection was not answered decodably: %r" % (
+                                t["seq"], t["sub"], None if pr is None else (pr.status, bytes(pr.data)[:20], pr.ended, pr.rst))})
     tally.clause("ctl-bytes")
     for nme, v in heads:
         if _ctl(nme) or _ctl(v):
